@@ -37,6 +37,10 @@ func optionSetsField(fn *ssa.Function) (string, bool) {
 			if !ok || u.Op != token.MUL || u.X != ssa.Value(cl.FreeVars[0]) {
 				return "", false
 			}
+			if narrowsOnTheWay(x.Val, f.Type()) {
+				// SequenceNumber(uint8(v)): the argument is cut below the width of the field before it is stored
+				return "", false
+			}
 			field = f.Name()
 		case *ssa.Call, *ssa.If, *ssa.MapUpdate:
 			return "", false
@@ -422,4 +426,29 @@ func mutatesReceiver(f *ssa.Function) bool {
 		}
 	}
 	return false
+}
+
+// narrowsOnTheWay: some conversion between the loaded argument and the stored value has an integer type
+// narrower than the destination field, so values the field could hold are wrapped before they reach it.
+func narrowsOnTheWay(v ssa.Value, dst types.Type) bool {
+	sz := types.SizesFor("gc", "amd64")
+	db, ok := dst.Underlying().(*types.Basic)
+	if !ok || db.Info()&types.IsInteger == 0 {
+		return false
+	}
+	for {
+		switch x := v.(type) {
+		case *ssa.Convert:
+			if b, ok := x.Type().Underlying().(*types.Basic); ok && b.Info()&types.IsInteger != 0 {
+				if sz.Sizeof(x.Type()) < sz.Sizeof(dst) {
+					return true
+				}
+			}
+			v = x.X
+		case *ssa.ChangeType:
+			v = x.X
+		default:
+			return false
+		}
+	}
 }
